@@ -283,7 +283,16 @@ func gmsg(w *World, kind string, a Args, auth string) (m sdk.Msg, handwritten bo
 			return mm, true, nil
 		}
 		if !a.Bool("remove") {
-			mm.CustomParams = *fxgovtypes.NewCustomParams(def("ratio", "0"), time.Duration(a.I64("period"))*time.Second, def("quorum", "0.3"))
+			lit := func(v string) string { // spellings the item syntax cannot carry
+				switch v {
+				case "EMPTY":
+					return ""
+				case "SPACE":
+					return " "
+				}
+				return v
+			}
+			mm.CustomParams = *fxgovtypes.NewCustomParams(lit(def("ratio", "0")), time.Duration(a.I64("period"))*time.Second, lit(def("quorum", "0.3")))
 			if !a.Has("period") {
 				mm.CustomParams.VotingPeriod = func() *time.Duration { d := 1000 * time.Second; return &d }()
 			}
